@@ -553,7 +553,10 @@ pub async fn deliver_with(t: &BuiltTree, int: &mut Interned, order: &[usize], al
                 }
                 if let Some(bs) = &before_snap {
                     let others_changed = bs.blocks.iter().any(|x| !snap.blocks.contains(x));
-                    if bs.tip_hash != snap.tip_hash || bs.lc_index != snap.lc_index || bs.utxo != snap.utxo || others_changed {
+                    // a block that is not connected to the stored chain is "parked" only if it is answered
+                    // OffChain and nothing but the block store changed; everything else (a reorganisation
+                    // attempt onto a disconnected chain, even a failed one) counts as an effect of the finding
+                    if class.code() != 2 || bs.tip_hash != snap.tip_hash || bs.lc_index != snap.lc_index || bs.utxo != snap.utxo || others_changed {
                         out.first_orphan_effect = Some(out.delivered.len() - 1);
                     }
                 }
